@@ -45,10 +45,23 @@ BENIGN = {"unused_variable", "combinational_loop", "missing_reset_statement", "m
 KINDS = ["multiple_assignment", "uncovered_branch", "unassign_variable"]
 
 
+def _cleanup_cases(name):
+    """the per-process case files are unique by pid; remove them after use"""
+    import glob
+    for p in glob.glob(os.path.join(C.WORK, "cases", name + "_*.v")):
+        try:
+            os.remove(p)
+        except OSError:
+            pass
+
+
 def model_eval(designs, name=None):
     name = name or "c15_%d" % os.getpid()    # unique: runs for several trees may overlap
     pre = "From Coq Require Import NArith List.\nImport ListNotations.\nFrom VV Require Import Analysis.AssignMaskModel.\nOpen Scope N_scope.\n"
-    vals = C.coq_eval_sharded(name, pre, [d.coq() for d in designs], lambda l: "map design_verdicts %s" % l, shard=40)
+    try:
+        vals = C.coq_eval_sharded(name, pre, [d.coq() for d in designs], lambda l: "map design_verdicts %s" % l, shard=40)
+    finally:
+        _cleanup_cases(name)
     out = []
     for v in vals:
         out.append([(tuple(x[:5]), tuple(x[5])) for x in v])
@@ -75,13 +88,12 @@ def judge(d, im, ver):
         g = (n in got["multiple_assignment"], n in got["uncovered_branch"], n in got["unassign_variable"])
         mm = (m[0], m[1], m[2] or m[4])
         ss = (s[0], s[1], s[2] or s[4])
-        agrees = g == mm
         if g[0] != ss[0]:
             bad.append(("multiple-assignment-" + ("missed" if ss[0] else "false-alarm"),
                         "%s: two processes %s a common bit, multiple_assignment %s" %
                         (n, "write" if ss[0] else "never write", "reported" if g[0] else "not reported")))
         if g[1] != ss[1]:
-            if agrees and g[1] and not ss[1]:
+            if g[1] == mm[1] and g[1] and not ss[1]:      # the transcribed walk predicts exactly this report
                 bad.append(("uncovered-later-assign", "%s: uncovered_branch reported although every path through the always_comb assigns it "
                             "(a later statement assigns unconditionally)" % n))
             else:
@@ -89,7 +101,7 @@ def judge(d, im, ver):
                             "%s: %s, uncovered_branch %s" % (n, "written on some but not all paths" if ss[1] else "written on all or no paths",
                                                             "reported" if g[1] else "not reported")))
         if g[2] != ss[2]:
-            if agrees and not g[2] and ss[2]:
+            if g[2] == mm[2] and not g[2] and ss[2]:
                 if s[2] and not s[3] and not s[4]:
                     key, why = "rba-cond-read", "read in an if/case condition before being assigned in the same always_comb"
                 elif s[2] and not m[2] and not s[4]:
@@ -207,7 +219,7 @@ def run(tier, seed, replay):
     res.count("evaluations", len(corp))
 
     rng = random.Random(seed * 15485863 + 15)
-    n = 700 if tier == "quick" else 12000
+    n = 600 if tier == "quick" else 12000
     gen = A.AsgGen(rng)
     designs = []
     for i in range(n):
